@@ -27,3 +27,21 @@ Theorem not_present_table :
 Proof. exact TieNotPresent.not_present_table. Qed.
 Print Assumptions not_present_table.
 
+
+(* the kinds `is empty` / `is not empty` are defined on: doMatchIsEmpty's case labels (read from evaluate.go) against the model *)
+From Bexpr Require Import TieCoerce TieKinds.
+
+Theorem is_empty_kinds :
+  forall k : kind, existsb (String.eqb (kind_go k)) go_is_empty_kinds = has_length k.
+Proof. exact TieKinds.is_empty_kinds. Qed.
+Print Assumptions is_empty_kinds.
+
+Theorem do_is_empty_by_kind :
+  forall v : rv,
+  do_is_empty v =
+  (if has_length (kind_of v) then match r_len v with
+                                  | Some n => Out (n =? 0)%nat None
+                                  | None => Panic
+                                  end else Out false (Some ENoLen)).
+Proof. exact TieKinds.do_is_empty_by_kind. Qed.
+Print Assumptions do_is_empty_by_kind.
